@@ -91,6 +91,16 @@ func runC13(c *Ctx, r *Rec) {
 	checkUnsignedExtremes(c, r, "D2-unsigned-extremes", fileFuncs(c, "collection", stk), map[*types.Var]bool{capF.Origin(): true})
 	checkMakeLenThenAppend(c, r, "D1-made-length-not-appended-to", append(fileFuncs(c, "collection", stk), c.allFuncDecls("module")...))
 	checkTypeLockPairing(c, r, "D4-lock-released", stk)
+	{
+		fds := append(fileFuncs(c, "collection", stk, cls), moduleFuncsReturning(c, "StackLike")...)
+		for _, nm := range []string{"ArrayLike", "ListLike", "ArrayClassLike", "ListClassLike"} {
+			if n, err := c.impl("collection", nm); err == nil && n != nil {
+				fds = append(fds, fileFuncs(c, "collection", n)...)
+			}
+		}
+		shapeLints(c, r, fds)
+	}
+	checkDefaultOnlyForZero(c, r, "D1-requested-capacity-honoured", fileFuncs(c, "collection", cls))
 	// ---- D1 constructors
 	cms := c.methodsOf(cls)
 	// every literal of the stack struct in the class's methods (constructors and their private helpers)
